@@ -37,13 +37,13 @@ pub fn run(ctx: &Ctx) -> Report {
     let mk = |min: u64, pre: Option<u32>, append: bool| World { append, trig: Trig::OnStartup(min), roller: RollerK::Fixed { base: 0, count: 2, ext: "" }, pre, sizes: vec![], multibyte: false, restart: false };
     let b = ctx.tier.pick(2usize, 3usize);
     let mut hs = vec![
-        (RSched { world: mk(1, Some(10), true), threads: 2, per_thread: 2, size: 24, chunks: 2 }, b),
-        (RSched { world: mk(5, Some(4), true), threads: 2, per_thread: 1, size: 24, chunks: 2 }, b),
-        (RSched { world: mk(0, None, true), threads: 3, per_thread: 1, size: 24, chunks: 1 }, 2),
-        (RSched { world: mk(1, Some(10), false), threads: 2, per_thread: 1, size: 24, chunks: 2 }, b),
+        (RSched { world: mk(1, Some(10), true), threads: 2, per_thread: 2, size: 24, chunks: 2, restart_after: None }, b),
+        (RSched { world: mk(5, Some(4), true), threads: 2, per_thread: 1, size: 24, chunks: 2, restart_after: None }, b),
+        (RSched { world: mk(0, None, true), threads: 3, per_thread: 1, size: 24, chunks: 1, restart_after: None }, 2),
+        (RSched { world: mk(1, Some(10), false), threads: 2, per_thread: 1, size: 24, chunks: 2, restart_after: None }, b),
     ];
     if ctx.tier == Tier::Thorough {
-        hs.push((RSched { world: mk(1, Some(10), true), threads: 3, per_thread: 2, size: 24, chunks: 2 }, 2));
+        hs.push((RSched { world: mk(1, Some(10), true), threads: 3, per_thread: 2, size: 24, chunks: 2, restart_after: None }, 2));
     }
     run_scheds(ctx, &mut rep, &hs);
     rep
